@@ -1,5 +1,6 @@
 /* file_ops.c — correspondence harness for File (C20).
- * Input / transcript format: see ocaml/File_driver.ml (the `model` transcript).
+ * Input / transcript format: see ocaml/File_driver.ml (the `model` transcript).  The tag in front
+ * of `|` may carry the flag fd0 or fd012 (standard descriptors closed before the case runs).
  * Real files live in a fresh directory per case (below $H_DIR).  The stdio entry points used
  * by src/File.c are interposed at link time (-Wl,--wrap=fopen,--wrap=fclose,...): the wrappers
  * keep the ledger (which FILE* came from which successful fopen, closed or not) and turn
@@ -294,6 +295,15 @@ static void run_block(void) {
 static void one_case(char* line) {
   char* bar = strchr(line, '|');
   char* ops = bar ? bar + 1 : line;
+  /* tag flags fd0 / fd012: the process has given up its standard descriptors before any File is
+     opened, so the Files of this case get descriptor numbers 0, 1, 2 (a daemon, `prog <&-`).  Safe
+     here: the child writes its transcript through OUT (a pipe, descriptor >= 3) and reads nothing. */
+  if (bar && !H_NOFORK) {
+    *bar = 0;
+    if (strstr(line, "fd012")) { close(0); close(1); close(2); }
+    else if (strstr(line, "fd0")) { close(0); }
+    *bar = '|';
+  }
   const char* base = getenv("H_DIR"); if (!base) base = "/tmp";
   snprintf(DIR, sizeof DIR, "%s/c%d", base, (int)getpid());
   mkdir(DIR, 0700);
